@@ -7,7 +7,7 @@ ASSUMPTIONS = [
     "population sizes 1×, 1.5×, 2×, 3× the documented (fixture) scale, subject to each configuration class's own validators (rejected configurations are skipped and counted)",
     "Bee Colony, Forest and Imperialist Competitive are variable-size by design: non-empty and never larger than population_size",
 ]
-MODULES = ["PvModel.Props.C10", "PvModel.Props.T10"]
+MODULES = ["PvModel.Props.C10", "PvModel.Props.T10", "PvModel.Props.R10"]
 
 
 def run(ctx):
